@@ -1,5 +1,6 @@
 import AslModel.HttpParse
 import AslProofs.HttpParse
+import AslProofs.HttpDispatch
 /-!
 # C09 — HTTP request parsing is total and safe and never yields a path containing `..`
 
@@ -14,7 +15,7 @@ How to read the model's result type `M α = Except Fault α`:
 "Total and in bounds" is therefore `∃ r, f x = .ok r`.
 -/
 namespace C09
-open AslModel.HttpParse AslProofs.HttpParse
+open AslModel.HttpParse AslProofs.HttpParse AslProofs.HttpDispatch
 
 /-! ## specifications (written from the property text, not from the code) -/
 
@@ -116,6 +117,41 @@ theorem header_set_get (h : Dic) (n v : Bytes) (hv : v ≠ []) :
     rfl
   obtain ⟨h1, h2, _⟩ := header_lookup_case_insensitive (setHeader h n v) n
   exact ⟨h1.trans key, h2.trans key, key⟩
+
+/-! ## dispatch implies a complete framed request ("either drop the connection or hand over the request sent")
+
+`HeaderBlock tail wire`: `tail` starts with LF-terminated lines up to and including the empty line, `wire` follows.
+`BodyFramed h wire body rest`: `wire` starts with the complete body that the headers `h` announce (exactly
+Content-Length bytes, or the chunk sequence with its terminating chunk, or nothing), `rest` follows.
+`FramedIn stream q`: a segment of `stream` is such a request and `q` carries its method, target, protocol, headers, body. -/
+
+/-- if `HttpRequest::read` returns a request that `HttpServer::serve` would dispatch (method present, connection
+    healthy before and after), the unread stream began with a complete framed request — request line with its LF that
+    splits into the method/target/protocol handed over, header block up to the empty line, the complete announced body
+    which is the body handed over — and reading stopped right after it -/
+theorem read_dispatch_complete (s : Sock) (r : Req) (s' : Sock) (hs : Healthy s)
+    (h : AslModel.HttpParse.read s = .ok (r, s')) (hd : Healthy s') (hm : r.method ≠ []) :
+    ∃ line tail wire, s.inp = line ++ 10 :: tail ∧ (∀ c ∈ line, c ≠ 10) ∧
+      parseRequestLine line = .ok (some ⟨r.method, r.res, r.proto⟩) ∧
+      HeaderBlock tail wire ∧ BodyFramed r.headers wire r.body s'.inp := read_complete s r s' hs h hd hm
+
+/-- **dispatch_implies_complete**: for every stream, every request the server loop hands to the application is a
+    complete framed request occupying a segment of that stream, with exactly the fields of that segment.  So a stream
+    the peer ends inside the request line, inside the header block, or before the last announced body byte is never
+    dispatched. -/
+theorem dispatch_implies_complete (stream : Bytes) (res : Sock × List Req) (h : serve { inp := stream } = .ok res) :
+    ∀ q ∈ res.2, ∃ pre line tail wire post, stream = pre ++ (line ++ 10 :: tail) ∧ (∀ c ∈ line, c ≠ 10) ∧
+      parseRequestLine line = .ok (some ⟨q.method, q.res, q.proto⟩) ∧
+      HeaderBlock tail wire ∧ BodyFramed q.headers wire q.body post := serve_framed stream res h
+
+/-- a stream that ends before the first line terminator (cut inside method, target or protocol) dispatches nothing -/
+theorem cut_in_request_line_not_dispatched (stream : Bytes) (res : Sock × List Req) (hn : ∀ c ∈ stream, c ≠ 10)
+    (h : serve { inp := stream } = .ok res) : res.2 = [] := by
+  cases hr : res.2 with
+  | nil => rfl
+  | cons q t =>
+    obtain ⟨pre, line, tail, _, _, e, _⟩ := dispatch_implies_complete stream res h q (by rw [hr]; simp)
+    exact absurd rfl (hn 10 (by rw [e]; simp))
 
 /-! ## a well-formed request is handed over exactly as sent -/
 
@@ -248,5 +284,14 @@ example : hexDigitsOf 17 = [49, 49] := by
   rw [hexDigitsOf]; simp only [show ¬ (17 < 16) by decide, dite_false]
   rw [hexDigitsOf]; decide
 example : hexDigitsOf 0 = [48] := by rw [hexDigitsOf]; decide
+
+-- "POST /u HTTP/1.1\r\nContent-Length: 20\r\n\r\n0123456789" then peer close: 10 of 20 body bytes, nothing dispatched
+example : (serve { inp := [80, 79, 83, 84, 32, 47, 117, 32, 72, 84, 84, 80, 47, 49, 46, 49, 13, 10, 67, 111, 110, 116, 101, 110, 116, 45, 76,
+    101, 110, 103, 116, 104, 58, 32, 50, 48, 13, 10, 13, 10, 48, 49, 50, 51, 52, 53, 54, 55, 56, 57] }).toOption.map (·.2.length) = some 0 := by decide
+-- the same with all 20 body bytes is read completely on a connection left healthy (the condition for dispatch)
+example : (AslModel.HttpParse.read { inp := [80, 79, 83, 84, 32, 47, 117, 32, 72, 84, 84, 80, 47, 49, 46, 49, 13, 10, 67, 111, 110, 116, 101, 110, 116, 45, 76,
+    101, 110, 103, 116, 104, 58, 32, 50, 48, 13, 10, 13, 10, 48, 49, 50, 51, 52, 53, 54, 55, 56, 57, 48, 49, 50, 51, 52, 53, 54, 55, 56, 57] }).toOption.map (fun r => (r.1.body.length, r.2.err, r.2.closed)) = some (20, 0, false) := by decide
+-- "GET /b HTTP/1.1\r\nfoo\r\n" then peer close: a line that is neither a field nor the empty line — dropped (5314fb5)
+example : (serve { inp := [71, 69, 84, 32, 47, 98, 32, 72, 84, 84, 80, 47, 49, 46, 49, 13, 10, 102, 111, 111, 13, 10] }).toOption.map (·.2.length) = some 0 := by decide
 
 end C09
